@@ -1064,11 +1064,15 @@ func Vacuum(ctx context.Context, tableName string, beforeTime time.Time) error {
 	}
 	err = db.RemoveTombstones(ctx, beforeTime)
 	if err != nil {
+		// db shares node objects with the table's tree: see
+		// reopenAfterFailedCommit
+		table.commitFailed = true
 		return fmt.Errorf("s3db commit tombstones: %w", err)
 	}
 	db.SetCreated(time.Now())
 	_, err = db.Commit(ctx)
 	if err != nil {
+		table.commitFailed = true
 		return fmt.Errorf("s3db commit tombstones: %w", err)
 	}
 	table.Tree.Root = db
